@@ -41,7 +41,7 @@ def plan(tier):
 
 
 def run(tier, seed):
-    return checkbase.run_e1("C03", tier, seed, TECH, plan(tier), monitors.c03, 150, 1500,
+    return checkbase.run_e1("C03", tier, seed, TECH, (lambda: plan(tier)), monitors.c03, 150, 1500,
                             "executions = complete runs of the real traversal, one per choice sequence (test durations from D, outcomes from O, "
                             "tie order of simultaneous events) with at most k non-default choices; distinct = distinct (scenario, sequence of "
                             "(worker, test, status)) signatures; states = distinct event histories at choice points",
